@@ -34,7 +34,7 @@ add('C02', 'Hypothesis generated coefficient vectors / segment bounds / temperat
     'Generated NASA-7, NASA-9 (1-4 segments, any listing order) and Shomate (all 16 fitting units) species with physical, arbitrary-magnitude and unit-vector '
     'coefficients, evaluated at temperatures inside, on and one float next to every break: values vs closed forms typed from the definitions (upper segment at the '
     'NASA-7 break, either neighbour at NASA-9 boundaries, refusal outside), G=H-TS, dH/dT=Cp and T dS/dT=Cp by Richardson differences inside segments, and '
-    'get_X(array)[i]==get_X(array[i]) for dimensionless and dimensional getters. Exploration only.',
+    'get_X(array)[i]==get_X(array[i]) for dimensionless and dimensional getters (each scalar on a fresh copy; float and integer-typed arrays), and the module-level evaluators in their documented argument form. Exploration only.',
     'Trusted: closed forms in vf/ref.py; tolerances 1e-12 / 1e-13 of the sum of |terms|; derivative stencils never straddle a break.',
     'DESIGN.md 3/C02')
 add('C08', 'Hypothesis generated reactions over mixed species classes + reference sums computed from the species\' own getters (Hess), metamorphic relations (reversal, forward-reverse, Kf*Kr=1)',
@@ -77,7 +77,7 @@ add('C01', 'Hypothesis generated mode / species parameter sets + textbook refere
     'Every mode model and every combination of modes (with references and misc models) over the stated parameter ranges: G=H-TS, F=U-TS, Cv=dU/dT, Cp=dH/dT, T dS/dT=Cp by Richardson '
     'differences, S(P2)-S(P1)=-ln(P2/P1) with ideal-gas translation, H-U = 1 or 0, verbose contributions sum/multiply to the total under all option combinations, EoRT(+ZPE), closed '
     'forms typed from the textbook for harmonic, quasi-RRHO, Einstein, Debye, rigid rotor, Sackur-Tetrode, ground-state degeneracy and LSR; cached vibrational/spin state after '
-    'reassignment equals a fresh object; all 13 point-group labels (exhaustive) and every G2 molecule under rigid motions and atom permutations. Exploration (finite sweeps exhaustive).',
+    'reassignment equals a fresh object; ExtendedLSR, ConstantMode unit convention and the documented defaults of the mode classes; all 13 point-group labels (exhaustive) and every G2 molecule under rigid motions and atom permutations. Exploration (finite sweeps exhaustive).',
     'Trusted: constants (C12), vf/ref.py formulas; Debye derivative relations judged at 1e-4; the known Debye integrand defect is recognised by its exact 9 Theta/4T signature only.',
     'DESIGN.md 3/C01')
 add('C04', 'Hypothesis generated (object, getter, unit, options) tuples + metamorphic oracle: dimensional value = dimensionless value (same options) x R(unit) (x T) (/ molar mass)',
@@ -135,7 +135,7 @@ add('C06', 'Hypothesis generated mechanisms (sites, species, reactions, run cond
     'Trusted: the model getters for A/Ea (C09), the reference parsers of vf/p06.py; reactions are site-conserving (no gas-only reactants with surface/bulk products).',
     'DESIGN.md 3/C06')
 add('C07', 'Hypothesis generated models / reactor option sets / phase-edit histories + oracles: yaml.safe_load and ast + recording CTI stubs (well-formedness), content comparison against the objects, model-based species lists',
-    'Three generators: (1) histories of species additions and removals on 1-4 coexisting phase objects (some default-constructed) checked against a dict model after every step; (2) reactor '
+    'Four generators: (0) species that only carry a phase name, reactions and interactions handed to organize_phases, whose result must list exactly the declared members; (1) histories of species additions and removals on 1-4 coexisting phase objects (some default-constructed) checked against a dict model after every step; (2) reactor '
     'option sets in which every dimensional and plain option is independently omitted or given as Python / NumPy number or "value unit" string, with units given or None, whose loaded YAML '
     'must contain exactly the supplied options with value and unit; (3) whole models (gas, optional bulk, 1-2 interfaces, NASA-7/NASA-9/Shomate species with occupancies, reactions with '
     'explicit TS / BEP / none and user, automatic or mixed ids, BEPs, lateral interactions, random unit system, T, P, Motz-Wise) whose thermo YAML must load and whose CTI must parse and '
